@@ -4,7 +4,7 @@ set -eu
 export CARGO_NET_OFFLINE=true
 mkdir -p /verif/target /verif/replays /verif/evidence
 cd /verif/harness
-cargo build --release -p vcheck
+cargo build --release -p vcheck -p vcheck-tantivy
 cargo build --release --manifest-path /repo/Cargo.toml --target-dir /verif/target/repo-bins \
   -p predict -p evaluate -p manipulate_model
 echo "setup ok"
